@@ -591,16 +591,43 @@ def check_round_completion_notice(ck, P, rid):
         return
     # ranks that can open a round: the guards on the way to the broadcast, evaluated on (nid, rid)
     paths, complete = Q.path_conditions(g, starts[0])
-    openers = set()
+    pairs = set()
     for k in range(0, 4):
-        for conds in paths:
-            ok = True
-            for core, t in conds:
-                v = ceval.ev(core, {"nid": k, "rid": 0})
-                if v is not None and bool(v) != t:
-                    ok = False
-            if ok:
-                openers.add(k)
+        for r_ in range(0, 4):
+            for conds in paths:
+                ok = True
+                for core, t in conds:
+                    v = ceval.ev(core, {"nid": k, "rid": r_})
+                    if v is not None and bool(v) != t:
+                        ok = False
+                if ok:
+                    pairs.add((k, r_))
+    openers = {k for k, r_ in pairs}
+    inst2 = "single-opener@gvt_phase_run"
+    if not complete or not pairs:
+        ck.inconclusive(rid, inst2, starts[0].where, "the guards of the GVT_START broadcast were not enumerated", cfg)
+    elif len(pairs) != 1:
+        ck.violated(rid, inst2, starts[0].where, "threads %s (rank, thread) may all open a GVT round: two of them passing the test together raise the count of awaited GVT_DONE notices twice, it never returns to zero and no further round is opened" % sorted(pairs)[:4], cfg)
+    else:
+        ck.holds(rid, inst2, starts[0].where, "only thread %d of rank %d opens rounds" % (sorted(pairs)[0][1], sorted(pairs)[0][0]), cfg)
+    # the opener opens a round only when the previous one was acknowledged by every rank (gvt_nodes == 0)
+    inst3 = "previous-round-acknowledged@gvt_phase_run"
+    okp = bool(paths)
+    for conds in paths:
+        hit = False
+        for core, t in conds:
+            loads = [y for y in core.walk() if y.k == "AtomicExpr" and Q.atomic_kind(y) == "load" and Q.atomic_target(y)[1] == "gvt_nodes"]
+            if loads:
+                c0, neg = X.strip_bool(core)
+                tr0 = _counter_test_truth(c0, neg, loads[0], 0, 1)
+                tr1 = _counter_test_truth(c0, neg, loads[0], 1, 1)
+                if tr0 is not None and tr1 is not None and tr0 == t and tr1 != t:
+                    hit = True
+        okp = okp and hit
+    if okp:
+        ck.holds(rid, inst3, starts[0].where, "a round is opened only when gvt_nodes == 0 (every rank has acknowledged the previous round)", cfg)
+    else:
+        ck.violated(rid, inst3, starts[0].where, "a new round can be opened while ranks are still finishing the previous one (no test that the count of awaited GVT_DONE notices is zero): the GVT_START reaches threads in the middle of a round and the two rounds' counters mix", cfg)
     if not complete or len(openers) != 1:
         ck.inconclusive(rid, inst, starts[0].where, "the set of ranks that may open a round is not a single rank (%s)" % sorted(openers), cfg)
         return
@@ -619,3 +646,161 @@ def check_round_completion_notice(ck, P, rid):
         ck.violated(rid, inst, c.where, "rank %d sends its GVT_DONE notice to rank %d, but rounds are opened by rank %d, which waits for one notice per rank before the next round: with more than one rank its counter never returns to zero and no further GVT is computed (no fossil collection, no termination)" % (bad[0], bad[1], opener), cfg)
     else:
         ck.holds(rid, inst, c.where, "every rank sends its GVT_DONE notice to rank %d, the only rank that opens rounds" % opener, cfg)
+
+
+def _counter_test_truth(core, neg, a, v, nthr):
+    """Truth of a branch condition that contains the atomic load `a`, when the load returns v and there are nthr threads."""
+    from . import ceval
+    if core is a or core.k == "AtomicExpr":
+        r = bool(v)
+    elif core.k == "BinaryOperator" and core.op in ("!=", "==", "<", ">", "<=", ">="):
+        l, r_ = X.strip(core.children[0]), X.strip(core.children[1])
+        env = {"global_config.n_threads": nthr}
+        lv = v if (l is a or a.is_inside(l)) and l.k == "AtomicExpr" else ceval.ev(core.children[0], env)
+        rv = v if (r_ is a or a.is_inside(r_)) and r_.k == "AtomicExpr" else ceval.ev(core.children[1], env)
+        if lv is None or rv is None:
+            return None
+        r = {"!=": lv != rv, "==": lv == rv, "<": lv < rv, ">": lv > rv, "<=": lv <= rv, ">=": lv >= rv}[core.op]
+    else:
+        return None
+    return (not r) if neg else r
+
+
+def check_node_protocol(ck, P, rid):
+    """Bookkeeping of the node-level GVT automaton (gvt_node_phase_run) that every round relies on; each clause is a necessary condition
+    for the message count to balance or for the round to end."""
+    from . import ceval
+    cfg = P.config
+    g = P.fn("gvt_node_phase_run")
+    # A. the snapshot of the per-destination send counters covers every rank
+    inst = "snapshot-every-rank@last_seq"
+    cps = [c for c in g.calls() if c.callee in ("memcpy", "__builtin_memcpy", "__builtin___memcpy_chk") and len(X.callee_args(c)) >= 3
+           and "last_seq" in X.show(X.callee_args(c)[0]) and "remote_msg_seq" in X.show(X.callee_args(c)[1])]
+    if len(cps) != 1:
+        ck.inconclusive(rid, inst, g.where, "the copy remote_msg_seq -> last_seq was not recognised", cfg)
+    else:
+        ln = X.callee_args(cps[0])[2]
+        esz = ([x.d.get("cv") for x in ln.walk() if x.k == "UnaryExprOrTypeTraitExpr" and x.d.get("cv")] or [4])[0]
+        bad = None
+        unk = False
+        for n in range(1, 9):
+            v = ceval.ev(ln, {"n_nodes": n})
+            if v is None:
+                unk = True
+                break
+            if v != n * esz and bad is None:
+                bad = (n, v // esz if esz else v)
+        if unk:
+            ck.inconclusive(rid, inst, cps[0].where, "length `%s` is not a function of n_nodes" % X.show(ln)[:50], cfg)
+        elif bad:
+            ck.violated(rid, inst, cps[0].where, "with %d rank(s) only %d send counters are remembered: the messages sent to the other ranks in this round are counted again in the next one and those ranks wait for messages that never come" % bad, cfg)
+        else:
+            ck.holds(rid, inst, cps[0].where, "the counters of all n_nodes ranks are remembered (1..8 ranks)", cfg)
+    # B. balance of total_msg_received: +c per thread, -(expected + c * threads) by the elected thread
+    inst = "balance@total_msg_received"
+    rm = [a for a in Q.atomics(g) if Q.atomic_kind(a) == "rmw" and Q.atomic_target(a)[1] == "total_msg_received" and len(a.children) > 1]
+    consts = [(a, X.const_int(a.children[1])) for a in rm if X.const_int(a.children[1]) is not None and "node_sent_reduce" in _case_label_of(g, a)]
+    subs = [a for a in rm if any(y.k == "DeclRefExpr" and y.name == "remote_msg_to_receive" for y in a.children[1].walk())]
+    if len(consts) != 1 or len(subs) != 1:
+        ck.inconclusive(rid, inst, g.where, "the per-thread ticket / the elected thread's subtraction were not recognised", cfg)
+    else:
+        c1 = consts[0][1]
+        sgn = -1 if Q.RMW_OPS.get(subs[0].aop) == "sub" else 1
+        bad = None
+        unk = False
+        for T in range(1, 9):
+            for R in (0, 3, 10):
+                v = ceval.ev(subs[0].children[1], {"remote_msg_to_receive": R, "global_config.n_threads": T})
+                if v is None:
+                    unk = True
+                    break
+                if sgn * v != -(R + c1 * T) and bad is None:
+                    bad = (T, R, sgn * v, -(R + c1 * T))
+        if unk:
+            ck.inconclusive(rid, inst, subs[0].where, "the subtracted amount is not a function of the expected count and the thread count", cfg)
+        elif bad:
+            ck.violated(rid, inst, subs[0].where, "with %d thread(s) and %d expected message(s) the counter changes by %d but the threads' tickets and the expected messages sum to %d: it never returns to zero (or does so early) and the round stalls (or closes with messages in flight)" % (bad[0], bad[1], bad[2], -bad[3]), cfg)
+        else:
+            ck.holds(rid, inst, subs[0].where, "every thread adds %d, the elected thread subtracts expected + %d x threads" % (c1, c1), cfg)
+    # C. the elected thread releases the others only when all have arrived (c_d == threads)
+    inst = "leader-waits@c_d"
+    rel = [a for a in Q.atomics(g) if Q.atomic_kind(a) == "rmw" and Q.atomic_target(a)[1] == "c_c" and "node_min_reduce_wait" in _case_label_of(g, a)]
+    if len(rel) != 1:
+        ck.inconclusive(rid, inst, g.where, "the release of c_c by the elected thread was not recognised", cfg)
+    else:
+        paths, complete = Q.path_conditions(g, rel[0])
+        ok_all = bool(paths) and complete
+        why = None
+        for conds in paths:
+            found = False
+            for core, t in conds:
+                loads = [y for y in core.walk() if y.k == "AtomicExpr" and Q.atomic_kind(y) == "load" and Q.atomic_target(y)[1] == "c_d"]
+                if not loads:
+                    continue
+                a = loads[0]
+                c0, neg = X.strip_bool(core)
+                good = True
+                for T in range(1, 9):
+                    for v in range(0, T + 1):
+                        tr = _counter_test_truth(c0, neg, a, v, T)
+                        if tr is None:
+                            good = False
+                        elif (tr == t) != (v == T) and (tr == t):
+                            good = False
+                            why = "with %d threads the release is reached with c_d == %d" % (T, v)
+                if good:
+                    found = True
+            if not found:
+                ok_all = False
+        if ok_all:
+            ck.holds(rid, inst, rel[0].where, "c_c is released only when c_d equals the thread count: every thread has taken its copy of the result", cfg)
+        elif not paths or not complete:
+            ck.inconclusive(rid, inst, rel[0].where, "paths to the release not enumerated", cfg)
+        else:
+            ck.violated(rid, inst, rel[0].where, "the elected thread releases the round (c_c) without waiting for every thread to have arrived (c_d == threads)%s: a thread that arrives late finds the counters of the NEXT round" % ((": " + why) if why else ""), cfg)
+    # D. the last state of a round puts both automata back
+    inst = "round-end-resets"
+    idle = P.enum_const("thread_phase_idle")
+    first = P.enum_const("node_phase_redux_first")
+    got = {}
+    for s in g.walk():
+        if s.k == "BinaryOperator" and s.op == "=" and "node_done" in _case_label_of(g, s):
+            tgt = X.show(X.strip(s.children[0]))
+            got[tgt] = ceval.ev(s.children[1], {})
+    if got.get("thread_phase") == idle and got.get("node_phase") == first and idle is not None:
+        ck.holds(rid, inst, g.where, "node_done sets thread_phase = idle and node_phase = first reduction", cfg)
+    else:
+        ck.violated(rid, inst, g.where, "the last state of a round does not put %s back: %s" % (
+            "the thread automaton to idle (the thread keeps stepping a round nobody else is in and never sees the next GVT_START)" if got.get("thread_phase") != idle else "the node automaton to its first state", got), cfg)
+    # G. successors of the two reduction states
+    inst = "phase-successor"
+    second = P.enum_const("node_phase_redux_second")
+    want = {first: P.enum_const("node_sent_reduce"), second: P.enum_const("node_min_reduce")}
+    upd = [s for s in g.walk() if "node_phase_redux_first" in _case_label_of(g, s) and (
+        (s.k == "UnaryOperator" and s.op in ("++",) and X.show(X.strip(s.children[0])) == "node_phase") or
+        (s.k in ("BinaryOperator", "CompoundAssignOperator") and (s.k == "CompoundAssignOperator" or s.op == "=") and X.show(X.strip(s.children[0])) == "node_phase"))]
+    if len(upd) != 1 or None in want.values():
+        ck.inconclusive(rid, inst, g.where, "the state update after a reduction was not recognised", cfg)
+    else:
+        s0 = upd[0]
+        bad = None
+        for ph, nxt in want.items():
+            if s0.k == "UnaryOperator":
+                new = ph + 1
+            elif s0.k == "CompoundAssignOperator":
+                d = ceval.ev(s0.children[1], {"node_phase": ph})
+                new = None if d is None else (ph + d if s0.op == "+=" else None)
+            else:
+                new = ceval.ev(s0.children[1], {"node_phase": ph})
+            if new is None:
+                bad = "?"
+                break
+            if new != nxt and bad is None:
+                bad = (ph, new, nxt)
+        if bad == "?":
+            ck.inconclusive(rid, inst, s0.where, "state update `%s` not evaluable" % X.show(s0)[:60], cfg)
+        elif bad:
+            ck.violated(rid, inst, s0.where, "after the %s reduction the node automaton goes to state %d instead of %d (%s): the round repeats the message count forever or skips it" % (
+                "first" if bad[0] == first else "second", bad[1], bad[2], "message count" if bad[0] == first else "minimum reduction"), cfg)
+        else:
+            ck.holds(rid, inst, s0.where, "first reduction -> message count, second reduction -> minimum reduction (enumerator values)", cfg)
